@@ -430,6 +430,28 @@ fn case<S: ShortGroupSignatureScheme>(v: &Value) -> Value {
                 q.proofs.shift_remove(k);
                 results.push(json!({"path": format!("proofs/{k}"), "kind": "remove-proof", "out": verdict(&q, &w.schema, &w.nonce)}));
             }
+            for (k, pr) in p.proofs.iter() {
+                if let PresentationProofs::Signature(sp) = pr {
+                    if let Ok(mut pj) = serde_json::to_value(&sp.pok) {
+                        let orig = pj["proof"].as_array().cloned().unwrap_or_default();
+                        let variants: Vec<(&str, Vec<Value>)> = vec![
+                            ("extend-by-minus-challenge", [orig.clone(), vec![json!(hex::encode((-p.challenge).to_be_bytes()))]].concat()),
+                            ("extend-by-zero", [orig.clone(), vec![json!(hex::encode(Scalar::ZERO.to_be_bytes()))]].concat()),
+                            ("shorten", orig[..orig.len().saturating_sub(1)].to_vec()),
+                        ];
+                        for (name, nv) in variants {
+                            pj["proof"] = json!(nv);
+                            if let Ok(npok) = serde_json::from_str::<S::ProofOfSignatureKnowledge>(&pj.to_string()) {
+                                let mut q = p.clone();
+                                let mut sp2 = (**sp).clone();
+                                sp2.pok = npok;
+                                q.proofs.insert(k.clone(), sp2.into());
+                                results.push(json!({"path": format!("proofs/{k}/Signature/pok/proof"), "kind": name, "out": verdict(&q, &w.schema, &w.nonce)}));
+                            }
+                        }
+                    }
+                }
+            }
             let keys: Vec<String> = p.proofs.keys().cloned().collect();
             if keys.len() >= 2 {
                 let mut q = p.clone();
@@ -559,6 +581,13 @@ fn case<S: ShortGroupSignatureScheme>(v: &Value) -> Value {
                         }
                     }
                 }
+                // zero nonce on the claim itself: resp == c*m'
+                {
+                    let hits: Vec<bool> = cands.iter().map(|m| mp == c * *m).collect();
+                    if hits.iter().any(|h| *h) {
+                        tests.push(json!({"test": "resp == c*m' (zero nonce)", "true_value": hits[0], "decoys": hits[1..].iter().filter(|h| **h).count()}));
+                    }
+                }
                 // per-byte dictionary test on the byte ciphertexts: G*resp_i - c1_i == c*byte*G
                 let mut bytes_recovered = None;
                 if let Some((c1s, resps)) = byte_ct {
@@ -567,6 +596,28 @@ fn case<S: ShortGroupSignatureScheme>(v: &Value) -> Value {
                         let lhs = G1Projective::GENERATOR * *ri - *c1i;
                         let b = (0u16..256).find(|b| lhs == G1Projective::GENERATOR * (c * Scalar::from(*b)));
                         rec.push(b);
+                    }
+                    // degenerate nonces: resp_i == c*b (zero nonce), and two bytes sharing one nonce: (resp_i - resp_j)/c in -255..255
+                    let cinv = Option::<Scalar>::from(c.invert()).unwrap_or(Scalar::ZERO);
+                    let small = |x: Scalar| -> bool { (0u16..256).any(|b| x == Scalar::from(b) || x == -Scalar::from(b)) };
+                    for (i, ri) in resps.iter().enumerate() {
+                        if rec[i].is_none() {
+                            let q = *ri * cinv;
+                            if let Some(b) = (0u16..256).find(|b| q == Scalar::from(*b)) {
+                                rec[i] = Some(b);
+                            }
+                        }
+                    }
+                    let mut shared_pairs = 0;
+                    for i in 0..resps.len() {
+                        for j in (i + 1)..resps.len() {
+                            if small((resps[i] - resps[j]) * cinv) {
+                                shared_pairs += 1;
+                            }
+                        }
+                    }
+                    if shared_pairs > 0 {
+                        tests.push(json!({"test": "(byte_resp_i - byte_resp_j)/c is a byte difference: two byte proofs share one nonce", "true_value": true, "decoys": 0, "pairs": shared_pairs}));
                     }
                     let all: Option<Vec<u8>> = rec.iter().map(|x| x.map(|y| y as u8)).collect();
                     bytes_recovered = Some(match all {
